@@ -102,7 +102,7 @@ type writeRec struct {
 	bytes []byte
 }
 
-type scriptConn struct {
+type cliScriptConn struct {
 	now     func() int64
 	in      chan []byte
 	closed  chan struct{}
@@ -113,11 +113,11 @@ type scriptConn struct {
 	probing bool
 }
 
-func newScriptConn(now func() int64) *scriptConn {
-	return &scriptConn{now: now, in: make(chan []byte, 4096), closed: make(chan struct{})}
+func cli_newScriptConn(now func() int64) *cliScriptConn {
+	return &cliScriptConn{now: now, in: make(chan []byte, 4096), closed: make(chan struct{})}
 }
 
-func (c *scriptConn) ReadFrom(b []byte) (int, net.Addr, error) {
+func (c *cliScriptConn) ReadFrom(b []byte) (int, net.Addr, error) {
 	select {
 	case p := <-c.in:
 		return copy(b, p), &net.UDPAddr{IP: net.IPv4(192, 0, 2, 1), Port: 67}, nil
@@ -126,7 +126,7 @@ func (c *scriptConn) ReadFrom(b []byte) (int, net.Addr, error) {
 	}
 }
 
-func (c *scriptConn) WriteTo(b []byte, a net.Addr) (int, error) {
+func (c *cliScriptConn) WriteTo(b []byte, a net.Addr) (int, error) {
 	select {
 	case <-c.closed:
 		return 0, net.ErrClosed
@@ -143,22 +143,22 @@ func (c *scriptConn) WriteTo(b []byte, a net.Addr) (int, error) {
 	return len(b), nil
 }
 
-func (c *scriptConn) setProbing(v bool) { c.mu.Lock(); c.probing = v; c.mu.Unlock() }
+func (c *cliScriptConn) setProbing(v bool) { c.mu.Lock(); c.probing = v; c.mu.Unlock() }
 
-func (c *scriptConn) snapshot() []writeRec {
+func (c *cliScriptConn) snapshot() []writeRec {
 	c.mu.Lock()
 	defer c.mu.Unlock()
 	return append([]writeRec(nil), c.writes...)
 }
 
-func (c *scriptConn) Close() error                     { c.once.Do(func() { close(c.closed) }); return nil }
-func (c *scriptConn) LocalAddr() net.Addr              { return &net.UDPAddr{} }
-func (c *scriptConn) SetDeadline(time.Time) error      { return nil }
-func (c *scriptConn) SetReadDeadline(time.Time) error  { return nil }
-func (c *scriptConn) SetWriteDeadline(time.Time) error { return nil }
+func (c *cliScriptConn) Close() error                     { c.once.Do(func() { close(c.closed) }); return nil }
+func (c *cliScriptConn) LocalAddr() net.Addr              { return &net.UDPAddr{} }
+func (c *cliScriptConn) SetDeadline(time.Time) error      { return nil }
+func (c *cliScriptConn) SetReadDeadline(time.Time) error  { return nil }
+func (c *cliScriptConn) SetWriteDeadline(time.Time) error { return nil }
 
 // inject never blocks (the queue is far larger than any script).
-func (c *scriptConn) inject(b []byte) {
+func (c *cliScriptConn) inject(b []byte) {
 	select {
 	case c.in <- b:
 	default:
